@@ -41,7 +41,7 @@ def make(kind):
     if kind == 'dynbin':
         return A.DynamicBinSorter(2, A.Mean, key=lambda o: float(np.sum(o)), datakey=lambda o: o)
     if kind == 'cachemax':
-        return A.CacheMaximum(length=4, key=lambda o: o[0], time_key=lambda o: o[1])
+        return A.CacheMaximum(length=6, key=lambda o: o[0], time_key=lambda o: o[1])      # (key-sorted lists shorter than 6 are always valid heaps)
     if kind == 'cacheacc':
         return A.CacheAccumulator(length=3)
     if kind == 'reservoir':
@@ -102,7 +102,7 @@ def snapshot_value(v):
 
 def gen_history(rng, kind):
     if kind in OBJECT_KINDS:
-        n = rng.choice([3, 5, 9, 14])
+        n = rng.choice([3, 7, 11, 16])
         times = rng.sample(range(100), n)
         # heavily tied keys, arbitrary distinct times: which of two equal keys survives is decided by the time stamps only
         return [(rng.randint(0, 2), times[i], 'obs%d' % i) for i in range(n)]
@@ -200,6 +200,20 @@ def check(ctx):
         if withreads != base or never_read != base:
             ctx.fail('reading-influences-accumulation:' + kind, 'reading the read-outs at steps %s changed the final state' % (rd,), case)
         acc2 = run_history(kind, hist)[2]
+        if kind not in OBJECT_KINDS:
+            # np.array(acc) is a COPY of the value (numpy's contract for np.array): writing into it is the caller's business
+            try:
+                cp = np.array(acc2)
+                shared = isinstance(cp, np.ndarray) and any(np.shares_memory(cp, y) for y in internals(acc2))
+                if shared or (isinstance(cp, np.ndarray) and cp.dtype != object and cp.size and not cp.flags.writeable):
+                    ctx.fail('array-conversion-aliases-state:' + kind, 'np.array(accumulator) shares memory with the accumulator\'s state', case)
+                elif isinstance(cp, np.ndarray) and cp.dtype != object and cp.size:
+                    before_w = readouts(kind, acc2)
+                    cp[...] = 77
+                    if readouts(kind, acc2) != before_w:
+                        ctx.fail('array-conversion-aliases-state:' + kind, 'writing into np.array(accumulator) changed the accumulator', case)
+            except (TypeError, ValueError, ZeroDivisionError):
+                pass            # no array form (value raises / is None): nothing to alias
         r1, r2, r3 = readouts(kind, acc2), readouts(kind, acc2), readouts(kind, acc2)
         if not (r1 == r2 == r3):
             ctx.fail('reading-not-repeatable:' + kind, 'reading twice gives different results', case)
